@@ -315,6 +315,39 @@ func c01(c *core.Ctx, r *core.Report) {
 					if ci, ok := ref.(ssa.CallInstruction); ok {
 						t := an.Callee(ci)
 						if t != nil && t.Pkg != nil && t.Pkg.Pkg.Path() == "sync/atomic" && t.Name() == "Add" {
+							// a merge method serving several (destination, source) pairs is judged pair by pair, at its call
+							// sites: only a pair that adds the hot accumulator into something that outlives the call counts
+							srcP, okS := an.Strip(accBase(s.Call.Common().Args[0])).(*ssa.Parameter)
+							dstP, okD := an.Strip(accBase(ci.Common().Args[0])).(*ssa.Parameter)
+							if okS && okD && srcP.Parent() == s.Fn && dstP.Parent() == s.Fn {
+								sitesOfFn := an.CallSitesOf(c, s.Fn)
+								bad := len(sitesOfFn) == 0
+								for _, cs := range sitesOfFn {
+									si, di := an.ParamIndex(srcP), an.ParamIndex(dstP)
+									if si >= len(cs.Common().Args) || di >= len(cs.Common().Args) {
+										bad = true
+										continue
+									}
+									srcHot, dstKept := false, false
+									for _, k := range an.InstanceClasses(c, cs.Common().Args[si], 4) {
+										if hot[k] {
+											srcHot = true
+										}
+									}
+									for _, k := range an.InstanceClasses(c, cs.Common().Args[di], 4) {
+										if k != "local" {
+											dstKept = true
+										}
+									}
+									if srcHot && dstKept {
+										bad = true
+									}
+								}
+								if !bad {
+									r.OK(key, an.Pos(c, s.Call), "read into a local copy only (a read-only view); nothing that outlives the call is fed from this Load")
+									continue
+								}
+							}
 							r.Violation(key, an.Pos(c, s.Call), "lifetime totals are fed from a separate Load of the per-period accumulator field %s (classes %s), not from the value the drain removed", s.Field.Name(), strings.Join(s.classes, ","))
 						}
 					}
@@ -396,6 +429,8 @@ func c01(c *core.Ctx, r *core.Report) {
 			fn := work[0]
 			work = work[1:]
 			cs := an.CallSitesOf(c, fn)
+			// … and where it runs because it was handed to a helper as a function value
+			cs = append(cs, an.ParamCallSitesOf(c, fn)...)
 			if len(cs) == 0 {
 				r.Violation(core.FuncName(fn)+"#unlocked-entry", c.Pos(fn.Pos()), "%s reaches the drain and has no caller holding a write lock (it is an unlocked entry point to the collector)", core.FuncName(fn))
 				continue
@@ -452,7 +487,8 @@ func c01(c *core.Ctx, r *core.Report) {
 			if t == loop {
 				runCall = call
 			}
-			if t != nil && core.RelPkg(t) == "internal/run" && an.ReachesCall(t, 0, func(g *ssa.Function) bool { return isMethod(g, progressPkg, "Stats", "Total") }) {
+			isTotal := func(g *ssa.Function) bool { return isMethod(g, progressPkg, "Stats", "Total") }
+			if t != nil && core.RelPkg(t) == "internal/run" && (an.ReachesCall(t, 0, isTotal) || an.PassesFunc(t, isTotal)) {
 				totals = call
 			}
 		}
